@@ -218,7 +218,19 @@ type emptyCmd struct{}
 func c20Run(c *Ctx) {
 	cs, cell := c20Gen(c)
 	c.Case(func() interface{} { return cs })
-	p := flags.NewNamedParser("app", flags.None)
+	// after a "--" terminator (PassDoubleDash) every word is an argument - also one that equals a command name:
+	// the diagnosis then has to cope with a word at distance 0
+	afterTerminator := cs.HasWord && (c.K/6)%5 == 3
+	if afterTerminator && len(cs.Visible) > 1 {
+		if rr := c.Sub("exact-name"); rr.Bool() {
+			cs.Word = cs.Visible[rr.Intn(len(cs.Visible))] // exactly a command's name (its siblings are near relatives)
+		}
+	}
+	popts := flags.Options(flags.None)
+	if afterTerminator {
+		popts = flags.PassDoubleDash
+	}
+	p := flags.NewNamedParser("app", popts)
 	parent := p.Command
 	var prefix []string
 	var err error
@@ -229,6 +241,10 @@ func c20Run(c *Ctx) {
 			return
 		}
 		prefix = []string{"top"}
+		if c.K%5 == 2 {
+			// the parent command itself is hidden: that says nothing about its sub-commands
+			parent.Hidden = true
+		}
 	}
 	for _, n := range cs.Visible {
 		if _, err := parent.AddCommand(n, "desc", "", &emptyCmd{}); err != nil {
@@ -269,13 +285,16 @@ func c20Run(c *Ctx) {
 			isName = true
 		}
 	}
-	if cs.HasWord && isName {
+	if cs.HasWord && isName && !afterTerminator {
 		return // the word selects a command: nothing to diagnose (trivial)
 	}
 	if len(cs.Visible)+len(cs.Hidden) == 0 {
 		return // no commands at all: the word is an ordinary argument (trivial)
 	}
 	args := append([]string{}, prefix...)
+	if afterTerminator {
+		args = append(args, "--")
+	}
 	if cs.HasWord {
 		args = append(args, cs.Word)
 	}
